@@ -68,6 +68,8 @@ class C19(Prop):
                 t = rng.choice([0.0, math.pi / 2, math.pi, rng.uniform(0, math.pi), rng.uniform(0, math.pi / 2), 1e-9, math.pi - 1e-9])
                 az = rng.uniform(0, 2 * math.pi)
                 v = [math.sin(t) * math.cos(az), math.sin(t) * math.sin(az), math.cos(t)]
+                if t == math.pi / 2:
+                    v[2] = 0.0            # exactly on the equator (cos(pi/2) is 6e-17 in doubles)
                 yield {'kind': 'project', 'v': v, 't': t, 'az': az, 'area': rng.random() < 0.5, 'lower': rng.random() < 0.7,
                        'full': rng.random() < 0.3, 'back': rng.random() < 0.4, 'array': rng.random() < 0.3}
 
